@@ -36,6 +36,7 @@ LADDER = (8, 16, 32, 64, 128, 256)
 CAP = 2.0
 FLOOR = 0.05
 SHORT_LIMIT = 1.0
+TICK = 0.01
 
 
 def inventory(sv):
@@ -160,8 +161,10 @@ def judge(fn, make):
             if prev is not None and prev < CAP / 64:
                 return 'super-polynomial', f't({LADDER[i - 1]})={prev:.4f}s then the {CAP}s cap at n={LADDER[i]}', LADDER[i]
             continue
-        if prev is not None and cur > FLOOR and cur / max(prev, 1e-4) > 64:
-            return 'super-polynomial', f't({LADDER[i - 1]})={prev:.4f}s t({LADDER[i]})={cur:.4f}s ratio {cur / prev:.0f}', LADDER[i]
+        # the CPU-time clock ticks in steps of up to 10 ms: a rung that reads 0.000 may have cost almost a tick, so ratios are taken against at
+        # least one tick (a polynomial of degree <= 6 stays below 64 per doubling; anything steeper reaches the cap a rung or two later anyway)
+        if prev is not None and cur > FLOOR and cur / max(prev, TICK) > 64:
+            return 'super-polynomial', f't({LADDER[i - 1]})={prev:.4f}s t({LADDER[i]})={cur:.4f}s ratio {cur / max(prev, TICK):.0f}', LADDER[i]
     return 'slow', f'times {times}', 0
 
 
@@ -228,8 +231,8 @@ def run_custom_chains(sv, res):
                 prev, cur = times[i - 1], times[i]
                 if cur is None and prev is not None and prev < CAP / 8:
                     bad = f'n={CHAIN_N[i - 1]}: {prev:.4f}s, then the {CAP}s cap at n={CHAIN_N[i]}'
-                elif cur is not None and prev is not None and cur > FLOOR and cur / max(prev, 1e-4) > 16:
-                    bad = f'n={CHAIN_N[i - 1]}: {prev:.4f}s, n={CHAIN_N[i]}: {cur:.4f}s (ratio {cur / max(prev, 1e-4):.0f} for {CHAIN_N[i] - CHAIN_N[i - 1]} more definitions)'
+                elif cur is not None and prev is not None and cur > FLOOR and cur / max(prev, TICK) > 16:
+                    bad = f'n={CHAIN_N[i - 1]}: {prev:.4f}s, n={CHAIN_N[i]}: {cur:.4f}s (ratio {cur / max(prev, TICK):.0f} for {CHAIN_N[i] - CHAIN_N[i - 1]} more definitions)'
             if times and times[0] is None:
                 bad = f'{CHAIN_N[0]} definitions already exceed the {CAP}s cap'
             if bad:
